@@ -319,9 +319,16 @@ def check_collection(res, spec):
     fcs = [b for b, m in zip(built, members) if m["agg"] == "fc"]
     cls = dict(agg="ac", n=len(members), parent=pk if isinstance(pk, str) else ("minus-chunk" if pk[0] == "minus" else "chunk"))
     res.trans()
-    o = lib.outcome(lambda: AnnotationCollection(feature_collections=fcs, genes=genes, start=bounds[0], end=bounds[1], parent_or_seq_chunk_parent=parent))
-    exp_b = MD.collection_bounds(members, bounds, pk, N)
-    canon = ("ac", repr(pk), tuple(bounds), tuple(m["key"] for m in members))
+    vspans = [tuple(v) for v in spec.get("variants", [])]
+    vcs = None
+    if vspans:
+        from inscripta.biocantor.gene.variants import VariantInterval, VariantIntervalCollection
+
+        vcs = [VariantIntervalCollection([VariantInterval(a_, b_, "A" * (b_ - a_), "SNV", variant_id=f"v{a_}", parent_or_seq_chunk_parent=parent)],
+                                         variant_collection_id=f"vc{a_}", parent_or_seq_chunk_parent=parent) for a_, b_ in vspans]
+    o = lib.outcome(lambda: AnnotationCollection(feature_collections=fcs, genes=genes, variant_collections=vcs, start=bounds[0], end=bounds[1], parent_or_seq_chunk_parent=parent))
+    exp_b = MD.collection_bounds(members + [{"span": v} for v in vspans], bounds, pk, N)
+    canon = ("ac", repr(pk), tuple(bounds), tuple(m["key"] for m in members), tuple(vspans))
 
     def dev(op, observed, expected, what):
         res.deviation(op, spec, observed, expected, sig=f"ac-{op}-{what}", **cls)
@@ -336,8 +343,9 @@ def check_collection(res, spec):
         return
     A = o[1]
     res.state(canon)
-    starts = [MD.member_span(m)[0] for m in members]
-    if len(members) >= 2 and (starts != sorted(starts) or len(set(starts)) < len(starts)):
+    starts = [MD.member_span(m)[0] for m in members] + [v[0] for v in vspans]
+    built = built + list(vcs or [])
+    if len(starts) >= 2 and (starts != sorted(starts) or len(set(starts)) < len(starts)):
         res.nontriv(canon)
     # len / is_empty
     res.trans(2)
